@@ -66,10 +66,18 @@ pub struct ReqOpts {
     pub big: bool,             // allow 65535+ lengths
 }
 
+thread_local! {
+    /// when set, noise records never are BeginRequest records (connection-level drivers need the request
+    /// boundaries to be exactly the generated requests)
+    pub static NO_BEGIN_NOISE: std::cell::Cell<bool> = const { std::cell::Cell::new(false) };
+}
+
 /// A management / unknown / foreign record that may appear anywhere.
 pub fn noise_record(out: &mut Vec<u8>, r: &mut StdRng, own: u16) {
     let plen = pick(r, &[0usize, 0, 1, 7, 8, 255]);
-    match r.gen_range(0..9) {
+    let mut kind = r.gen_range(0..9);
+    if NO_BEGIN_NOISE.with(std::cell::Cell::get) && (kind == 2 || kind == 8) { kind = 0; }
+    match kind {
         0 => { // GetValues with known/unknown/repeated names, values, maybe a trailing partial pair
             let mut body = Vec::new();
             for _ in 0..r.gen_range(0..4) {
